@@ -116,7 +116,7 @@ class VLoop(asyncio.BaseEventLoop):
 
     def _run_once(self) -> None:
         self.steps += 1
-        if self.steps > HORIZON:
+        if self.steps > self.env.horizon:
             raise HorizonExceeded()
         self._pop_cancelled_timers()
         env = self.env
@@ -197,6 +197,8 @@ class Env:
         self.fails: list[tuple[str, str]] = []
         self.finished = False
         self.offer_timers = True
+        self.horizon = HORIZON
+        self.inject_filter = None
         self.pending_signals: list[int] = []
         self.quiescent_hooks: list[Callable[[], None]] = []
         self.env_events = 0
